@@ -108,7 +108,7 @@ class NP:
       raise Unsupported('.T on symbolic-rank array')
     dims = list(reversed(st.shape.dims))
     term = TH.tr(st.term) if st.shape.rank == 2 else (st.term if st.shape.rank <= 1 else None)
-    return cx.new(term, dims, st.kind, st.owner, base=(a.loc, st.version))
+    return cx.new(term, dims, st.kind, st.owner, base=(a.loc, st.version), vf=st.vf)
 
   # ------------------------------------------------------------------------------------- subscripts
   def getitem(self, cx, base, idx):
@@ -230,6 +230,7 @@ class NP:
           else:
             adv_dims = bshape(cx, adv_dims, list(ist.shape.dims))
           pattern.append(('arr', it, axis))
+          cx.frame_obligation(it, d, 'fancy index on axis %d' % axis)
       else:
         raise Unsupported('index item %r (line %s)' % (it, cx.line()))
       axis += 1
@@ -244,9 +245,15 @@ class NP:
         term = fresh('elem', z3.RealSort() if st.kind in ('f', 'c') else z3.IntSort())
       if st.kind == 'b':
         return [(p, VBool(term if term.sort() == z3.BoolSort() else term != 0))]
-      return [(p, wrap_scalar(term, st.kind))]
+      sc = wrap_scalar(term, st.kind)
+      if st.vf is not None:
+        sc.vf = st.vf
+      if st.tag and st.tag[0] == 'range' and isinstance(sc, VInt):
+        p.assume(sc.t >= st.tag[1])
+        p.assume(sc.t < st.tag[2])
+      return [(p, sc)]
     owner = st.owner if is_view else FRESH
-    v = cx.new(term, out_dims, st.kind, owner, base=(base.loc, st.version) if is_view else None)
+    v = cx.new(term, out_dims, st.kind, owner, base=(base.loc, st.version) if is_view else None, vf=st.vf)
     return [(p, v)]
 
   def slice_len(self, cx, sl, d):
@@ -310,6 +317,12 @@ class NP:
       raise Unsupported('item assignment on %r (line %s)' % (base, cx.line()))
     st = cx.st(base)
     self.write(cx, base, 'item assignment', value=None)
+    if st.kind in ('i', 'b') and isinstance(v, (VArr, VInt)):
+      f = cx.vf_of(v)
+      cur = cx.st(base)
+      if f is not None and (cur.vf is None or not getattr(cur, '_vf_fixed', False)):
+        newf = f if cur.vf is None or cur.tag == ('vf-empty',) else cx.join_vf([base, v])
+        p.store[base.loc] = cur.replace(vf=newf)
     return [p]
 
   def write(self, cx, a, what, value=None):
@@ -764,7 +777,23 @@ def install(lib):
   @ext('builtins.set')
   def _set(cx, *a):
     if not a:
-      return VOpaque('set')
+      lid = fresh_name('l')
+      cx.p.lists[lid] = dict(n=z3.IntVal(0), elem=None, isset=True)
+      return VListRef(lid)
+    v = a[0]
+    if isinstance(v, VTuple) and len(v.items) == 1 and isinstance(v.items[0], VArr):
+      v = v.items[0]                  # set(np.where(m)[0])
+    if isinstance(v, VArr):
+      st = cx.st(v)
+      lid = fresh_name('l')
+      n = fresh('card', z3.IntSort())
+      cx.p.assume(n >= 0)
+      cx.p.assume(n <= st.shape.size())
+      e = VInt(fresh('member', z3.IntSort()))
+      if st.vf is not None:
+        e.vf = st.vf
+      cx.p.lists[lid] = dict(n=n, elem=e, isset=True, distinct_of=v.loc)
+      return VListRef(lid)
     return VOpaque('set')
 
   @ext('builtins.sum')
@@ -850,6 +879,12 @@ def install(lib):
         for t in ts[1:]:
           acc = acc + t if name == 'sum' else z3.If(t > acc, t, acc) if name in ('max', 'amax') else z3.If(t < acc, t, acc)
         return cx.ex.wrapnum(acc)
+      if isinstance(a, VListRef):
+        t = fresh(name, z3.IntSort())
+        e = cx.p.lists[a.lid].get('elem')
+        if isinstance(e, VInt) and name == 'sum':
+          cx.p.side.append(('assume', 'sum-of-nonnegatives', list(cx.p.pc), t >= 0, 'np.sum over a list'))
+        return VInt(t)
       if isinstance(a, (VList, VTuple)):
         return VOpaque('np.%s(list)' % name)
       st = cx.st(a)
@@ -909,25 +944,25 @@ def install(lib):
   @method('copy')
   def _copy(cx, a, **kw):
     st = cx.st(a)
-    return cx.new(TH.copyT(st.term) if st.term is not None else None, st.shape.dims, st.kind)
+    return cx.new(TH.copyT(st.term) if st.term is not None else None, st.shape.dims, st.kind, vf=st.vf)
 
   @method('ravel')
   def _ravel(cx, a, **kw):
     st = cx.st(a)
     return cx.new(TH.ravel(st.term) if st.term is not None else None, [st.shape.size()], st.kind, st.owner,
-                  base=(a.loc, st.version))
+                  base=(a.loc, st.version), vf=st.vf)
 
   @method('flatten')
   def _flatten(cx, a, **kw):
     st = cx.st(a)
-    return cx.new(TH.ravel(st.term) if st.term is not None else None, [st.shape.size()], st.kind)
+    return cx.new(TH.ravel(st.term) if st.term is not None else None, [st.shape.size()], st.kind, vf=st.vf)
 
   @method('astype')
   def _astype(cx, a, dtype, copy=None, **kw):
     st = cx.st(a)
     k = dtype_kind(dtype)
     maycopy = not (isinstance(copy, VBool) and copy.conc() is False)
-    return cx.new(st.term, st.shape.dims, k, FRESH if maycopy else st.owner, base=None if maycopy else (a.loc, st.version))
+    return cx.new(st.term, st.shape.dims, k, FRESH if maycopy else st.owner, base=None if maycopy else (a.loc, st.version), vf=st.vf)
 
   @method('squeeze')
   def _squeeze(cx, a, **kw):
